@@ -58,7 +58,11 @@ func verif_C07_data_cut() {
 	// runs out is one more place at which the stream may end
 	limit := []int{0, 2, L + 1, verifBound(0, 1)}[verifChoice(3+verifBound(0, 1))]
 	s.MaxMessageBytes = int64(limit)
-	vc, _, _ := verifServe(s, in[:cut], final)
+	// the last octets arrive alone, or together with the end of the connection
+	vc := &vconn{in: in[:cut], final: final, finalWithData: nondetBool()}
+	sc := newConn(vc, s)
+	s.handleConn(sc)
+	verifSettle()
 
 	delivered := in[len(head):cut]
 	body, _, complete := refUnstuff(delivered)
